@@ -1,15 +1,16 @@
 #!/usr/bin/env python3
 """Validate MANIFEST.json and every evidence file against the schemas (run with python3-vt)."""
-import json, glob, sys, jsonschema
+import json, glob, os, sys, jsonschema
+R = os.path.dirname(os.path.dirname(os.path.abspath(__file__)))
 ok = True
-m = json.load(open('/verif/MANIFEST.json'))
+m = json.load(open(R + '/MANIFEST.json'))
 jsonschema.validate(m, json.load(open('/root/.vp/MANIFEST.schema.json')))
-ids = {json.loads(l)['id'] for l in open('/verif/properties.jsonl')}
+ids = {json.loads(l)['id'] for l in open(R + '/properties.jsonl')}
 claimed = {c['property_id'] for c in m['checks']}
 na = {c['property_id'] for c in m.get('not_applicable', [])}
 assert claimed | na == ids and not (claimed & na), (ids - claimed - na, claimed & na)
 es = json.load(open('/root/.vp/EVIDENCE.schema.json'))
-for f in sorted(glob.glob('/verif/evidence/*.json')):
+for f in sorted(glob.glob(R + '/evidence/*.json')):
     try:
         jsonschema.validate(json.load(open(f)), es)
     except Exception as e:
